@@ -229,7 +229,7 @@ func (g *G) fileEntry(i int, typ string) *Content {
 			add(sd + "/" + g.word(2) + rng.Pick(g.r, exts))
 		}
 		for k := g.r.Intn(3); k > 0; k-- {
-			sub := sd + "/" + g.word(1)
+			sub := sd + "/dir-" + g.word(1)
 			for m := g.r.Range(1, 3); m > 0; m-- {
 				add(sub + "/" + g.word(2) + rng.Pick(g.r, exts))
 			}
